@@ -2,6 +2,7 @@
    Statements only. *)
 From TM Require ModifierSpec SpecTables.
 From TMGen Require Modifiers.
+From TM Require MonitorsSilent.
 From TM Require Import Base Mapper Monitors Trace MapperInv MapperProps MapperFire MapperNoAbs MapperChoice.
 
 (* For EVERY accepted layout WITHOUT absorbing mappings, EVERY history h (so:
@@ -52,6 +53,41 @@ Proof.
   exact (fired_eq_choice L _ k _ Hwf Hc Hse Hk).
 Qed.
 Print Assumptions C03_fired_is_spec_choice.
+
+(* The extracted step checker Monitors.check_step (applied by the mapper engine
+   to the outputs of the REAL mapper on every explored transition: specification
+   state before and after, keys physically held and keys held on the virtual
+   keyboard before the step, the input, the observed events) states the theorem
+   above on one observed press of a key that is not physically held, in a layout
+   without absorbing mappings (the class of this property; it evaluates these
+   clauses under `has_absorbing L = false` only): K_C03_fire (there is a
+   spec_choice m and: a non-modifier output key of m has no press event in the
+   step, or a modifier output key of m is neither held after the step nor pressed
+   in it, or m has normal repeat and an output key of m is not held after the
+   step, or m is key-producing and its final output key is never pressed),
+   K_C03_pass (there is no spec_choice and: a mapping in effect mentions k but
+   events were emitted, or none mentions k and the last event is not the press of
+   k); reported as C03.fire, C03.pass.  It never fires on the model: for EVERY
+   classification, EVERY accepted layout, EVERY history h and EVERY next input i,
+   applied to the model's own events for i it returns no clause at all, in
+   particular neither of these two.  Runs on which these clauses fire:
+   MonitorsSilent.check_step_fires, MonitorsSilent.check_step_fires_every_clause. *)
+Theorem C03_checkers_silent_on_model :
+  forall (is_action : key -> bool) (L : layout) (h : list input) (i : input),
+    for_layout_ok L = true ->
+    let chk := check_step is_action L (state_of is_action L h) (state_of is_action L (h ++ [i]))
+                 (phys_of h) (held_all is_action L h) i
+                 (fst (fst (mstep is_action L (state_of is_action L h) i))) in
+    chk = [] /\ ~ In K_C03_fire chk /\ ~ In K_C03_pass chk.
+Proof.
+  intros a L h i H. cbn zeta.
+  assert (Hwf : wf_layout L) by (apply for_layout_ok_wf; exact H).
+  repeat split.
+  - apply MonitorsSilent.check_step_silent. exact Hwf.
+  - apply MonitorsSilent.check_step_clause_silent. exact Hwf.
+  - apply MonitorsSilent.check_step_clause_silent. exact Hwf.
+Qed.
+Print Assumptions C03_checkers_silent_on_model.
 
 (* "Modifier" in this property means one of the eight standard modifiers
    (SpecTables.spec_modifier_keys: left/right Shift, Ctrl, Alt, Meta): the
